@@ -1,4 +1,108 @@
-import SafeC.Models.Copy
-/-! Property theorems for C06 (see DESIGN.md §4). -/
+import SafeC.Proofs.CopyDisjoint
+/-!
+# C06 — success means the exact, complete result: no silent truncation
+
+`Spec`: the standard counterparts as list functions.  For valid, non-overlapping operands the
+models return EOK exactly when the complete result including its terminator fits in dmax, and then
+dest holds exactly that result; otherwise they fail (ESNOSPC) — they never store a shortened result
+and report success.
+-/
 namespace SafeC.Props.C06
+open SafeC Gen
+
+/-- the first `n` cells at `p` as a list -/
+def cells (st : St) (p : Nat) : Nat → List Nat
+  | 0 => []
+  | n+1 => st.data p :: cells st (p+1) n
+
+theorem cells_eq (st st' : St) (p q n : Nat) (h : ∀ i, i < n → st'.data (p+i) = st.data (q+i)) :
+    cells st' p n = cells st q n := by
+  induction n generalizing p q with
+  | zero => rfl
+  | succ n ih =>
+    simp only [cells]
+    have h0 := h 0 (by omega)
+    simp only [Nat.add_zero] at h0
+    rw [h0, ih (p+1) (q+1)]
+    intro i hi
+    have := h (i+1) (by omega)
+    simpa [Nat.add_assoc, Nat.add_comm 1 i] using this
+
+theorem cells_snoc (st : St) (p n : Nat) : cells st p (n+1) = cells st p n ++ [st.data (p+n)] := by
+  induction n generalizing p with
+  | zero => simp [cells]
+  | succ n ih =>
+    have := ih (p+1)
+    simp only [cells] at this ⊢
+    rw [this]
+    simp [Nat.add_assoc, Nat.add_comm 1 n]
+
+/-- strcpy: dest = src string ++ [0] -/
+theorem strcpy_s_C06 (cfg : Cfg) (dest dmax src n : Nat) (st : St)
+    (hd : dest ≠ 0) (hs : src ≠ 0) (hpos : 0 < dmax) (hle : dmax ≤ RSIZE_MAX_STR)
+    (hrw : RW st dest dmax) (hsrc : SrcStr st src n) (hdisj : Disjoint dest dmax src n) :
+    ∃ code st', exec (strcpy_s cfg dest dmax src none) st = .ok (code, st') ∧
+      (code = EOK ↔ n + 1 ≤ dmax) ∧
+      (code = EOK → cells st' dest (n+1) = cells st src n ++ [0]) := by
+  obtain ⟨code, st', he, _, _, _, _, _, hok, hfail⟩ :=
+    strcpyG_disjoint _ cfg dest dmax src n st hd hs hpos hle hrw hsrc hdisj
+  refine ⟨code, st', he, ⟨fun hc => ?_, fun h => (hok (by omega)).1⟩, fun hc => ?_⟩
+  · by_cases h : n < dmax
+    · omega
+    · have := (hfail (by omega)).1
+      rw [hc] at this; exact absurd this (by decide)
+  · have hn : n < dmax := by
+      by_cases h : n < dmax
+      · exact h
+      · have := (hfail (by omega)).1
+        rw [hc] at this; exact absurd this (by decide)
+    obtain ⟨_, _, hcp, hnul, _⟩ := hok hn
+    have : cells st' dest (n+1) = cells st' dest n ++ [0] := by rw [cells_snoc, hnul]
+    rw [this, cells_eq st st' dest src n hcp]
+
+/-- strcat: old dest string ++ src string ++ [0] -/
+theorem strcat_s_C06 (cfg : Cfg) (dest dmax src dl n : Nat) (st : St)
+    (hd : dest ≠ 0) (hs : src ≠ 0) (hpos : 0 < dmax) (hle : dmax ≤ RSIZE_MAX_STR)
+    (hrw : RW st dest dmax) (hsrc : SrcStr st src n) (hdisj : Disjoint dest dmax src n)
+    (hdl : dl < dmax) (hdnz : ∀ j, j < dl → st.data (dest+j) ≠ 0) (hdnul : st.data (dest+dl) = 0) :
+    ∃ code st', exec (strcat_s cfg dest dmax src none) st = .ok (code, st') ∧
+      (code = EOK ↔ dl + n + 1 ≤ dmax) ∧
+      (code = EOK → cells st' dest dl = cells st dest dl ∧ cells st' (dest+dl) n = cells st src n ∧
+        st'.data (dest+dl+n) = 0) := by
+  obtain ⟨code, st', he, _, _, _, _, _, hok, hfail⟩ :=
+    strcatG_disjoint _ cfg dest dmax src dl n st hd hs hpos hle hrw hsrc hdisj hdl hdnz hdnul
+  have key : code = EOK → dl + n < dmax := by
+    intro hc
+    by_cases h : dl + n < dmax
+    · exact h
+    · have := (hfail (by omega)).1
+      rw [hc] at this; exact absurd this (by decide)
+  refine ⟨code, st', he, ⟨fun hc => by have := key hc; omega, fun h => (hok (by omega)).1⟩, fun hc => ?_⟩
+  obtain ⟨_, _, hpre, hcp, hnul, _⟩ := hok (key hc)
+  exact ⟨cells_eq st st' dest dest dl hpre, cells_eq st st' (dest+dl) src n hcp, hnul⟩
+
+/-- strncpy: the first `m = min(slen, strlen src)` characters, then a terminator -/
+theorem strncpy_s_C06 (cfg : Cfg) (dest dmax src slen m : Nat) (st : St)
+    (hd : dest ≠ 0) (hs : src ≠ 0) (hpos : 0 < dmax) (hle : dmax ≤ RSIZE_MAX_STR)
+    (hslen : 0 < slen) (hslenle : slen ≤ RSIZE_MAX_STR)
+    (hrw : RW st dest dmax)
+    (hnz : ∀ j, j < m → st.data (src+j) ≠ 0)
+    (hrd : ∀ j, j < m → st.mapped (src+j) = true ∧ st.rd (src+j) = true)
+    (hfin : (m < slen ∧ st.data (src+m) = 0 ∧ st.mapped (src+m) = true ∧ st.rd (src+m) = true) ∨ slen = m)
+    (hdisj : dest + dmax ≤ src ∨ src + m < dest) :
+    ∃ code st', exec (strncpy_s cfg dest dmax src slen none none) st = .ok (code, st') ∧
+      (code = EOK ↔ m + 1 ≤ dmax) ∧
+      (code = EOK → cells st' dest m = cells st src m ∧ st'.data (dest+m) = 0) := by
+  obtain ⟨code, st', he, _, _, _, _, _, hok, hfail⟩ :=
+    strncpyG_disjoint _ cfg dest dmax src slen m st hd hs hpos hle (Nat.le_refl _) hslen hslenle hrw hnz hrd hfin hdisj
+  have key : code = EOK → m < dmax := by
+    intro hc
+    by_cases h : m < dmax
+    · exact h
+    · have := (hfail (by omega)).1
+      rw [hc] at this; exact absurd this (by decide)
+  refine ⟨code, st', he, ⟨fun hc => by have := key hc; omega, fun h => (hok (by omega)).1⟩, fun hc => ?_⟩
+  obtain ⟨_, _, hcp, hnul, _⟩ := hok (key hc)
+  exact ⟨cells_eq st st' dest src m hcp, hnul⟩
+
 end SafeC.Props.C06
